@@ -147,6 +147,16 @@ class Fn:
                 if u is None or u[1] is None:
                     return n
                 dnode, val = u
+                # the definition's own inputs must still have the values they had there (no re-assignment in between)
+                if hasattr(at, "id"):
+                    bound_inside = {x.id for x in ast.walk(val) if isinstance(x, ast.Name) and isinstance(x.ctx, ast.Store)} | {a.arg for x in ast.walk(val) if isinstance(x, ast.Lambda) for a in x.args.args}
+                    for sub in ast.walk(val):
+                        if isinstance(sub, ast.Name) and isinstance(sub.ctx, ast.Load) and sub.id != n.id and sub.id not in bound_inside:
+                            try:
+                                if fn.rd(sub.id)[dnode.id] != fn.rd(sub.id)[at.id] and (fn.rd(sub.id)[dnode.id] or fn.rd(sub.id)[at.id]):
+                                    return n
+                            except KeyError:
+                                pass
                 # a definition that reads object state (self.x...) stands for that state only while nothing re-assigns it
                 for sub in (ast.walk(val) if state_safe else ()):
                     if isinstance(sub, ast.Attribute):
@@ -237,6 +247,24 @@ def _pairs(target, value):
                 yield from _pairs(t, None)
     else:
         yield target, value
+
+
+def ctor_fields(repo: Repo, module: Module, call: ast.Call) -> dict:
+    """{field name: argument expr} of a dataclass construction, positional arguments mapped through the field order."""
+    ci = repo.resolve_class(module, call.func) if dotted(call.func) else None
+    out = {}
+    if ci is not None and ci.is_dataclass:
+        names = [n for n, _, _ in ci.fields]
+        for i, a in enumerate(call.args):
+            if isinstance(a, ast.Starred):
+                out["*"] = a.value
+                break
+            if i < len(names):
+                out[names[i]] = a
+    for k in call.keywords:
+        if k.arg:
+            out[k.arg] = k.value
+    return out
 
 
 def poly(repo: Repo, module: Module, e: ast.expr) -> dict:
